@@ -66,6 +66,213 @@ def documented_steps(run, r):
     return out
 
 
+def _success_conditions(F):
+    """The alternatives under which function F yields a true verdict: one guard list per `return True`, per `return any(<elt> for ..)` and
+    per `return <expression>`; each is [(test expr, polarity)]."""
+    alts = []
+    for x in q.walk(F, False):
+        if not isinstance(x, ast.Return) or x.value is None:
+            continue
+        v = strip_cast(x.value)
+        base = [(g[0], g[1]) for g in guards(x)]
+        if isinstance(v, ast.Constant):
+            if v.value is True:
+                alts.append((base, x))
+            continue
+        if isinstance(v, ast.Call) and isinstance(v.func, ast.Name) and v.func.id == 'any' and len(v.args) == 1 and isinstance(v.args[0], (ast.GeneratorExp, ast.ListComp)):
+            c = v.args[0]
+            alts.append((base + [(c.elt, True)] + [(i, True) for g_ in c.generators for i in g_.ifs], x))
+            continue
+        alts.append((base + [(v, True)], x))
+    return alts
+
+
+def _formula_equals(alts, classify, spec):
+    """The disjunction of the alternatives, read over classified atoms, coincides with spec(valuation) everywhere.
+    -> (ok, vars, first differing valuation)"""
+    ba = q.BoolAbs(classify)
+    for conds, _ in alts:
+        for e, pol in conds:
+            ba.ev(e, {})
+    vs = list(ba.vars)
+    for mask in range(1 << len(vs)):
+        val = {v: bool(mask >> i & 1) for i, v in enumerate(vs)}
+        got = any(all(ba.ev(e, val) == pol for e, pol in conds) for conds, _ in alts)
+        if got != bool(spec(val)):
+            return False, vs, val
+    return True, vs, None
+
+
+def rules_verdict_condition(run, r3, tmod):
+    """The exact condition of a true verdict, as a propositional formula over the atoms of the documented definition."""
+    def helper_called(F, c):
+        return [f for f in tmod.tree.body if isinstance(f, ast.FunctionDef) and isinstance(c.func, ast.Name) and f.name == c.func.id and f.name.startswith('_')]
+
+    def flags_of(F):
+        out = set()
+        for n in q.walk(F):
+            if isinstance(n, ast.Assign) and len(n.targets) == 1 and isinstance(n.targets[0], ast.Name) and isinstance(n.value, ast.Constant) and isinstance(n.value.value, bool):
+                out.add(n.targets[0].id)
+        return out
+
+    def event_classify(F, name_p):
+        fl = flags_of(F)
+
+        def classify(op, l, r_, e):
+            if op == 'is' and l == name_p and r_ == 'None':
+                return 'NAME_NONE'
+            if op == '==' and name_p in (l, r_) and (l.endswith('.name') or r_.endswith('.name')):
+                return 'NAME_EQ'
+            if op == 'is' and l.endswith('.event') and r_ == 'None':
+                return ('HAS_EVENT', False)
+            if op == 'truthy' and l.endswith('.event') and '(' not in l:
+                return 'HAS_EVENT'
+            if op == 'truthy' and l in fl:
+                return 'ALL_MATCH'
+            if op == 'truthy' and isinstance(e, ast.Call) and isinstance(e.func, ast.Name) and e.func.id == 'all':
+                return 'ALL_MATCH'
+            if op == 'truthy' and isinstance(e, ast.Call) and isinstance(e.func, ast.Name) and e.func.id == 'any' and 'getattr(' in l and '!=' in l:
+                return ('ALL_MATCH', False)
+            if op == 'truthy' and isinstance(e, ast.Call) and isinstance(e.func, ast.Name) and e.func.id.startswith('_') and helper_called(F, e):
+                return 'HELPER:' + e.func.id
+            return None
+        return classify
+
+    def event_spec(need_event, vs):
+        def spec(v):
+            okv = True
+            if any(x.startswith('HELPER:') for x in vs):
+                okv = all(v.get(x, False) for x in vs if x.startswith('HELPER:'))
+            if 'NAME_NONE' in vs or 'NAME_EQ' in vs:
+                okv = okv and (v.get('NAME_NONE', False) or v.get('NAME_EQ', False))
+            if 'ALL_MATCH' in vs:
+                okv = okv and v['ALL_MATCH']
+            if 'HAS_EVENT' in vs:
+                okv = okv and v['HAS_EVENT']
+            return okv
+        return spec
+
+    for fname, need_event in (('event_is_fired', False), ('event_is_consumed', True)):
+        fi = run.fn('sismic.testing:' + fname)
+        F = fi.node
+        name_p = q.param_names(F)[1]
+        todo = [(F, name_p, fi.short)]
+        seen_name = False
+        seen_event = False
+        while todo:
+            G, np_, label = todo.pop()
+            alts = _success_conditions(G)
+            cl = event_classify(G, np_)
+            okf, vs, cex = _formula_equals(alts, cl, lambda v: False)     # first pass: collect the variables
+            okf, vs, cex = _formula_equals(alts, cl, event_spec(need_event, vs))
+            unknown = [x for x in vs if x.startswith('?')]
+            run.check(okf and not unknown and bool(alts), r3, fi.short, 'true verdict iff (no name given or the name matches) and every given parameter matches%s [%s]'
+                      % (' and the step consumed an event' if need_event else '', label),
+                      'the condition of a true verdict differs from the documented one (atoms %s, e.g. %s)' % (vs, cex), G)
+            seen_name = seen_name or ('NAME_NONE' in vs and 'NAME_EQ' in vs)
+            seen_event = seen_event or 'HAS_EVENT' in vs
+            for hv in [x for x in vs if x.startswith('HELPER:')]:
+                for c in q.calls(G):
+                    if isinstance(c.func, ast.Name) and c.func.id == hv[7:]:
+                        h = helper_called(G, c)
+                        idx = [i for i, a_ in enumerate(c.args) if isinstance(a_, ast.Name) and a_.id == np_]
+                        if h and idx and not any(t[0] is h[0] for t in todo):
+                            todo.append((h[0], q.param_names(h[0])[idx[0]], fi.short + ' via ' + h[0].name))
+        run.check(seen_name, r3, fi.short, 'the event name takes part in the verdict (any event when no name is given)', 'the name test is missing', F)
+        if need_event:
+            run.check(seen_event, r3, fi.short, 'macro steps that consumed no event never match', 'a step without event can satisfy the predicate', F)
+
+    # the expected parameters: the given mapping, an empty one only when none was given
+    for fname in ('event_is_fired', 'event_is_consumed'):
+        fi = run.fn('sismic.testing:' + fname)
+        F = fi.node
+        pp = q.param_names(F)[2]
+        for st, v in q.assigned_value(F, pp):
+            for val, at in q.cases(F, v):
+                val = strip_cast(val)
+                at = at + [a for a in guard_atoms(st)]
+                empty = (isinstance(val, ast.Dict) and not val.keys) or (isinstance(val, ast.Call) and isinstance(val.func, ast.Name) and val.func.id == 'dict' and not val.args and not val.keywords)
+                if empty:
+                    run.check(('is', pp, 'None') in at, r3, fi.short, 'an empty parameter mapping only stands in for a missing one', 'the given parameters are replaced by an empty mapping under %s' % at, st)
+                else:
+                    run.check(isinstance(val, ast.Name) and val.id == pp and ('is', pp, 'None') not in at, r3, fi.short, 'given parameters are kept as they are',
+                              'the expected parameters become %s under %s' % (q.unparse(val)[:40], at), st)
+
+    # state predicates: membership of the name in the list of the same name
+    for fname, attr in (('state_is_entered', 'entered_states'), ('state_is_exited', 'exited_states')):
+        fi = run.fn('sismic.testing:' + fname)
+        F = fi.node
+        np_ = q.param_names(F)[1]
+
+        def classify(op, l, r_, e, np_=np_, attr=attr):
+            if op == 'in' and l == np_ and r_.endswith('.' + attr):
+                return 'MEMBER'
+            return None
+        alts = _success_conditions(F)
+        okf, vs, cex = _formula_equals(alts, classify, lambda v: v.get('MEMBER', False))
+        run.check(okf and vs == ['MEMBER'], r3, fi.short, 'true verdict iff the name is in %s of some step' % attr, 'condition differs (atoms %s)' % vs, F)
+
+    fi = run.fn('sismic.testing:transition_is_processed')
+    F = fi.node
+    tp = q.param_names(F)[1]
+
+    def classify_t(op, l, r_, e):
+        if op == 'is' and l == tp and r_ == 'None':
+            return 'ANY'
+        if op == 'in' and l == tp and r_.endswith('.transitions'):
+            return 'MEMBER'
+        if op == 'truthy' and l.endswith('.transitions'):
+            return 'NONEMPTY'
+        return None
+    alts = _success_conditions(F)
+    okf, vs, cex = _formula_equals(alts, classify_t, lambda v: (v.get('ANY', False) and v.get('NONEMPTY', False)) or (not v.get('ANY', False) and v.get('MEMBER', False)))
+    run.check(okf and set(vs) == {'ANY', 'MEMBER', 'NONEMPTY'}, r3, fi.short, 'true verdict iff (no transition given and some transition was processed) or the given one was',
+              'condition differs (atoms %s, e.g. %s)' % (vs, cex), F)
+    # every predicate wraps a single macro step into a list (and only then): case split of what the search ranges over
+    for fname in ('state_is_entered', 'state_is_exited', 'event_is_fired', 'event_is_consumed', 'transition_is_processed'):
+        fi = run.fn('sismic.testing:' + fname)
+        F = fi.node
+        sp = q.param_names(F)[0]
+        iters = [n.iter for n in q.walk(F) if isinstance(n, (ast.For, ast.comprehension)) and sp in value_names(F, n.iter) and not isinstance(strip_cast(n.iter), ast.Attribute)
+                 and not q.unparse(n.iter).endswith('.items()')]
+        iters = [it for it in iters if isinstance(strip_cast(it), ast.Name)]
+        okw = bool(iters)
+        for it in iters:
+            cs = q.cases(F, it)
+            if isinstance(strip_cast(it), ast.Name) and strip_cast(it).id == sp:
+                # the parameter is rebound: `steps = steps if isinstance(steps, list) else [steps]`, or `steps = [steps]` under `if not isinstance(steps, list)`
+                # (which leaves the parameter itself as the other case)
+                cs = []
+                for st_, v_ in q.assigned_value(F, sp):
+                    for val_, at_ in q.cases(F, v_) if isinstance(strip_cast(v_), ast.IfExp) else [(v_, [])]:
+                        cs.append((val_, at_ + guard_atoms(st_)))
+                if len(cs) == 1 and any(a[0] == 'falsy' for a in cs[0][1]):
+                    cs.append((ast.Name(id=sp, ctx=ast.Load()), [('truthy', 'isinstance(%s, list)' % sp, '')]))
+            good = len(cs) == 2
+            for val, at in cs:
+                val = strip_cast(val)
+                is_list = any(a[0] == 'truthy' and a[1].replace(' ', '') == 'isinstance(%s,list)' % sp for a in at)
+                not_list = any(a[0] == 'falsy' and a[1].replace(' ', '') == 'isinstance(%s,list)' % sp for a in at)
+                if is_list and not not_list:
+                    good = good and isinstance(val, ast.Name) and val.id == sp
+                elif not_list and not is_list:
+                    good = good and isinstance(val, ast.List) and len(val.elts) == 1 and isinstance(val.elts[0], ast.Name) and val.elts[0].id == sp
+                else:
+                    good = False
+            okw = okw and good
+        run.check(okw, r3, fi.short, 'a single macro step is wrapped into a list, a list is taken as it is', 'the wrapping of the steps argument differs', F)
+
+
+def _wraps_by_statement(F, sp):
+    for st, v in q.assigned_value(F, sp):
+        v = strip_cast(v)
+        at = guard_atoms(st)
+        if isinstance(v, ast.List) and len(v.elts) == 1 and isinstance(v.elts[0], ast.Name) and v.elts[0].id == sp and \
+                at == [('falsy', 'isinstance(%s, list)' % sp, '')]:
+            return True
+    return False
+
+
 def value_names(F, expr, depth=0, seen=None):
     """All names and attribute chains the value of expr may derive from (through local assignments)."""
     seen = seen if seen is not None else set()
@@ -391,6 +598,8 @@ def check(run):
         run.check(bool(okk), r3, fi.short, 'True requires every expected parameter to match (%s)' % form,
                   'the parameter comparison does not require all parameters to match (%s, %s)' % (where_, form), F)
 
+    rules_verdict_condition(run, r3, tmod)
+
     eh = run.fn('sismic.testing:expression_holds')
     rets = [n for n in q.walk(eh.node, False) if isinstance(n, ast.Return)]
     ps = q.param_names(eh.node)
@@ -483,6 +692,56 @@ def check(run):
     run.check(good, r6, se.short, 'queues the named event with the collected parameters', 'differs', se.node)
     pn = value_names(se.node, star[0]) if star else set()
     run.check({'parameter', 'value', 'context.table'} <= pn, r6, se.short, 'inline and table parameters both reach the event', 'parameters derive from %s' % sorted(pn)[:8], se.node)
+    # the `then` side of the same table: the expected parameters handed to testing.event_is_fired are the inline one and the table rows
+    ef = run.fn('sismic.bdd.steps:event_is_fired')
+    tc = [c for c in q.calls(ef.node) if q.unparse(c.func).endswith('event_is_fired') and c is not None and len(c.args) >= 3]
+    run.check(len(tc) == 1, r6, ef.short, 'one call of testing.event_is_fired with the expected parameters', 'found %d' % len(tc), ef.node)
+    for c in tc:
+        pn2 = value_names(ef.node, c.args[2])
+        run.check({'parameter', 'value', 'context.table'} <= pn2, r6, ef.short, 'inline and table parameters both reach the comparison', 'expected parameters derive from %s' % sorted(pn2)[:8], c)
+        run.check(q.unparse(c.args[1]) == q.param_names(ef.node)[1] and not [g for g in guards(q.enclosing_stmt(c))], r6, ef.short, 'the named event is looked up, unconditionally', 'differs', c)
+    # `no event is fired` fails exactly when some monitored macro step sent something
+    nf = run.fn('sismic.bdd.steps:no_event_is_fired')
+    fails = []
+    for a in [n for n in q.walk(nf.node) if isinstance(n, ast.Assert)]:
+        t_ = strip_cast(a.test)
+        base = [(g[0], g[1]) for g in guards(a)]
+        if isinstance(t_, ast.Constant):
+            if not t_.value:
+                fails.append((base, a))
+        else:
+            fails.append((base + [(t_, False)], a))
+
+    # the conditions only count the events of the macro step: evaluate them for n = 0, 1, 2, 3 sent events
+    class _N(ast.NodeTransformer):
+        def visit_Call(self, node):
+            if isinstance(node.func, ast.Name) and node.func.id == 'len' and len(node.args) == 1 and q.unparse(strip_cast(node.args[0])).endswith('.sent_events'):
+                return ast.copy_location(ast.Name(id='n', ctx=ast.Load()), node)
+            return self.generic_visit(node)
+
+        def visit_Attribute(self, node):
+            if q.unparse(node).endswith('.sent_events'):
+                return ast.copy_location(ast.Compare(left=ast.Name(id='n', ctx=ast.Load()), ops=[ast.Gt()], comparators=[ast.Constant(value=0)]), node)
+            return node
+
+    def holds(e, pol, n):
+        import copy as _copy
+        t = ast.fix_missing_locations(ast.Expression(body=_N().visit(_copy.deepcopy(strip_cast(e)))))
+        if any(isinstance(x, ast.Name) and x.id != 'n' for x in ast.walk(t)) or any(isinstance(x, (ast.Call, ast.Attribute, ast.Subscript)) for x in ast.walk(t)):
+            raise ValueError(q.unparse(e))
+        return bool(eval(compile(t, '<cond>', 'eval'), {'__builtins__': {}}, {'n': n})) == pol
+    okf = bool(fails)
+    vs = []
+    try:
+        for n_ev in range(4):
+            got = any(all(holds(e_, pol, n_ev) for e_, pol in conds) for conds, _ in fails)
+            okf = okf and got == (n_ev > 0)
+    except ValueError as ex_:
+        okf = False
+        vs = ['condition on something else than the number of sent events: %s' % str(ex_)[:50]]
+    loops = [n for n in q.walk(nf.node, False) if isinstance(n, ast.For) and q.unparse(n.iter) == 'context.monitored_trace']
+    run.check(okf and len(loops) == 1, r6, nf.short, 'fails iff some monitored macro step sent an event',
+              'the step does not fail exactly for the macro steps with one or more sent events %s' % vs, nf.node)
     wt = run.fn('sismic.bdd.steps:wait')
     aug = [n for n in q.walk(wt.node) if isinstance(n, ast.AugAssign)]
     run.check(len(aug) == 1 and q.unparse(aug[0].target) == 'context.interpreter.clock.time' and isinstance(aug[0].op, ast.Add) and q.unparse(aug[0].value) == 'seconds', r6, wt.short,
@@ -518,6 +777,10 @@ def check(run):
         run.check(any(a[0] == '==' and ((a[1].endswith('.name') and a[2] == scen) or (a[2].endswith('.name') and a[1] == scen)) for a in at), r6, rs.short,
                   'reproduces the scenario of the given name', 'condition is %s' % at, ex[0])
         run.check(any(a[0] == 'in' and a[1].endswith('.step_type') and "'given'" in a[2] and "'when'" in a[2] for a in at), r6, rs.short, 'only its given/when steps are re-executed', 'differs', ex[0])
+        fails_ = [n for n in q.walk(rs.node) if (isinstance(n, ast.Assert) and isinstance(strip_cast(n.test), ast.Constant) and not strip_cast(n.test).value)
+                  or (isinstance(n, ast.Raise) and q.raised_class(n) == 'AssertionError')]
+        run.check(any(not any(a[0] == '==' and scen in (a[1], a[2]) for a in guard_atoms(n)) for n in fails_), r6, rs.short, 'an unknown scenario name fails the step',
+                  'reproducing a scenario that does not exist passes silently', rs.node)
         lp_ = q.enclosing(ex[0], ast.For)
         run.check(lp_ is not None and not any(isinstance(x, ast.Break) for x in ast.walk(lp_)), r6, rs.short, 'every given/when step of the reproduced scenario is re-executed',
                   'the replay stops at the first step that is not a given/when step: later given/when steps are skipped', lp_ if lp_ is not None else rs.node)
